@@ -99,6 +99,24 @@ claim("C14", "model_checking",
       "Own affine Edwards arithmetic (M5) and NAF code; M1 bound to the prover by C05. Quick tier strides digit positions and allocation ordinals (reported).",
       "DESIGN.md §5 C14")
 
+claim("C01", "model_checking",
+      "breadth-first exploration of composer operation sequences (E1) and an exhaustive size sweep around every power of two, each state decided by M1 and pushed through the real pipeline on three routes",
+      "Every constraint count within +-8 of 2^k (quick: full window for k <= 6, boundary sizes for k = 7..9; thorough: full window k = 3..12) in shapes {filler, PI on first user row / row c-2 / last row of a full domain / adjacent rows, custom-gate row on the last row} x SRS capacities {minimal admitting, minimal+1, ample} x 2 labels, and every E1 program (all single operations, ordered pairs, depth 3 on a reduced cheap alphabet in thorough; chained and shared operands): when M1 says the instance is satisfied, compilation, proving, the returned public-input vector and verification must all succeed on the direct, compressed and serialized routes.",
+      "M1 (bound to the prover by C05) decides which states are satisfied; RNG draws scripted non-zero; sizes above 2^12 and depth > 3 not explored.",
+      "DESIGN.md §5 C01")
+
+claim("C15", "model_checking",
+      "exhaustive comparison of the compressed and direct compile routes over all E1 program states / named circuits x SRS capacities, plus handcrafted boundary descriptions in a child process with a counting allocator",
+      "For every E1 program state and a named list (unused witnesses, repeated / distinct selector tuples, selectors equal to the built-in table entries, zero-valued PIs, PI on first / last row) at capacities {min-1, min, min+1, ample}: Prover and Verifier bytes from compile_with_compressed equal those of direct compilation and both routes succeed or fail for exactly the same capacities; handcrafted descriptions (constraints = max / max+1, trailing bytes 1..8, each index at bound / bound-1, non-increasing PIs, witness count 1e12, announced lengths 2^31, 1 GiB deflate bomb) are accepted / rejected as specified with peak allocation <= 2 x the valid peak + 1 MiB.",
+      "Own MessagePack encoder validated by byte-identical re-encoding of real descriptions; capacity rule stated independently.",
+      "DESIGN.md §5 C15")
+
+claim("C16", "model_checking",
+      "exhaustive round-trip enumeration over E1 program states, boundary-size circuits, handcrafted layouts and SRS degrees; proof canonicity over all 8064 single-bit flips and hand-built non-canonical encodings",
+      "For every explored circuit: Prover / Verifier encode -> decode -> encode is byte-identical and serialized_size exact; the decoded prover produces the identical proof from the same RNG script; the decoded verifier returns the same verdict on the honest proof, one flipped bit per proof field and PI edits; every decodable proof string re-encodes to itself (all 8064 flips + non-canonical scalars / points rejected); PublicParameters (checked and raw forms) re-encode identically and compile to identical keys. Includes a layout whose multiplication selector is identically zero (polynomial lengths differ).",
+      "Behavioural equality observed on the listed presentations, not all proofs.",
+      "DESIGN.md §5 C16")
+
 ALL = [f"C{i:02d}" for i in range(1, 21)]
 
 def main():
